@@ -173,6 +173,63 @@ def write_world(base, f):
     open(os.path.join(base, "prices2.db"), "w").write(PRICES.replace(" 2 EUR", " 7 EUR"))
 
 
+def input_scenarios(run):
+    """fixed worlds: every input option against the same value written into the configuration file"""
+    import subprocess
+    root = os.path.join(CACHE, "c19i-%d" % os.getpid())
+    shutil.rmtree(root, ignore_errors=True)
+    os.makedirs(os.path.join(root, "txns"))
+    os.makedirs(os.path.join(root, "alt", "deep"))
+    os.makedirs(os.path.join(root, "one"))
+    T = lambda d, n, a: "2024-01-%02d '%s\n a  %d\n b  -%d\n" % (d, n, a, a)
+    open(os.path.join(root, "txns", "a.txn"), "w").write(T(1, "fs-default", 1))
+    open(os.path.join(root, "alt", "deep", "b.jrn"), "w").write(T(2, "alt-jrn", 2))
+    open(os.path.join(root, "alt", "c.txn"), "w").write(T(3, "alt-txn", 3))
+    open(os.path.join(root, "one", "single.txn"), "w").write(T(4, "single-file", 4))
+    env = dict(os.environ, GIT_AUTHOR_NAME="v", GIT_AUTHOR_EMAIL="v@v", GIT_COMMITTER_NAME="v", GIT_COMMITTER_EMAIL="v@v",
+               GIT_CONFIG_GLOBAL="/dev/null", GIT_CONFIG_SYSTEM="/dev/null")
+    w = os.path.join(root, "repo")
+    os.makedirs(os.path.join(w, "j"))
+
+    def g(*a):
+        subprocess.run(["git"] + list(a), cwd=w, env=env, check=True, capture_output=True)
+    g("init", "-q", "-b", "main", ".")
+    open(os.path.join(w, "j", "m.jrn"), "w").write(T(5, "git-main-jrn", 5))
+    open(os.path.join(w, "j", "m.txn"), "w").write(T(6, "git-main-txn", 6))
+    g("add", "-A"); g("commit", "-q", "-m", "one")
+    sha1 = subprocess.run(["git", "rev-parse", "HEAD"], cwd=w, env=env, capture_output=True, text=True).stdout.strip()
+    g("checkout", "-q", "-b", "other")
+    open(os.path.join(w, "j", "o.jrn"), "w").write(T(7, "git-other-jrn", 7))
+    g("add", "-A"); g("commit", "-q", "-m", "two")
+    g("checkout", "-q", "main")
+
+    def conf(name, storage="fs", fs=("txns", "txn"), git=None):
+        inp = 'input = { storage = "%s", fs = { dir = "%s", suffix = "%s" }' % (storage, fs[0], fs[1])
+        if git:
+            inp += ', git = { repo = "%s", ref = "%s", dir = "%s", suffix = "%s" }' % git
+        inp += " }"
+        t = J.make_toml(targets='"register"').replace('input = { storage = "fs", fs = { dir = "txns", suffix = "txn" } }', inp)
+        p = os.path.join(root, name + ".toml")
+        open(p, "w").write(t)
+        return p
+    G = ("repo", "main", "j", "jrn")
+    out = []
+    try:
+        def pair(name, a_conf, a_args, b_conf):
+            out.append((name, run_cli(["--config", a_conf] + a_args), run_cli(["--config", b_conf])))
+        pair("fs_dir_ext", conf("s1a"), ["--input.fs.dir", os.path.join(root, "alt"), "--input.fs.ext", "jrn"], conf("s1b", fs=("alt", "jrn")))
+        pair("input_file", conf("s2a"), ["--input.file", os.path.join(root, "one", "single.txn")], conf("s2b", fs=("one", "txn")))
+        pair("storage_git", conf("s3a", git=G), ["--input.storage", "git"], conf("s3b", storage="git", git=G))
+        pair("storage_fs", conf("s4a", storage="git", git=G), ["--input.storage", "fs"], conf("s4b", storage="fs", git=G))
+        pair("git_ref", conf("s5a", storage="git", git=G), ["--input.git.ref", "other"], conf("s5b", storage="git", git=("repo", "other", "j", "jrn")))
+        pair("git_commit", conf("s6a", storage="git", git=("repo", "other", "j", "jrn")), ["--input.git.commit", sha1], conf("s6b", storage="git", git=("repo", sha1, "j", "jrn")))
+        pair("git_repository_suffix", conf("s7a", git=("nonexistent", "main", "x", "jrn")),
+             ["--input.git.repository", os.path.join(root, "repo"), "--input.git.dir", "j", "--input.git.ref", "main"], conf("s7b", storage="git", git=G))
+    finally:
+        shutil.rmtree(root, ignore_errors=True)
+    return out
+
+
 def main(run):
     info = proof_stage(run, "C19", extra_targets=["corr/C19_corr.vo"])
     harness_build()
@@ -269,6 +326,19 @@ def main(run):
                           {"file": f, "cli_options": c, "command_line": cli_args(c, "<dir>"), "config_toml": toml_of(f),
                            "merged_config_toml": toml_of(merged(f, c)), "exit_with_options": rc1, "exit_with_merged_file": rc2,
                            "stdout_with_options": so1[:3000], "stdout_with_merged_file": so2[:3000], "stderr": (se1[-300:], se2[-300:])})
+    # ---- (c) input storage / location options vs the same values in the file
+    for name, a, b in input_scenarios(run):
+        run.cov["evaluations"] += 1
+        (rc1, so1, se1), (rc2, so2, se2) = a, b
+        distinct.add(so1[:2000])
+        if not ((rc1 == 0) == (rc2 == 0) and (rc1 != 0 or so1 == so2)):
+            kf = [f for f in load_findings("C19") if f.get("status") == "open" and f.get("class") == name]
+            if kf:
+                run.known_finding(kf[0]["what"])
+            else:
+                run.violation("input option scenario '%s': options and the same values written into the file give different results" % name,
+                              {"scenario": name, "exit_with_options": rc1, "exit_with_file": rc2, "stdout_with_options": so1[:2500],
+                               "stdout_with_file": so2[:2500], "stderr": (se1[-300:], se2[-300:])})
     run.cov["distinct_nontrivial"] = len(distinct)
     run.cov["rule"] = ("random (configuration file, option subset) pairs over strict, audit, report/export targets, global/per-report/equity "
                        "selectors, report commodity, price db and lookup type (+ --price.before), group-by; (a) Settings::try_from effective "
